@@ -8,8 +8,8 @@ from props import c01
 
 ID = "C03"
 LEVEL = "other"
-LEAN_MODULES = existing_modules(["Sonic.Props.C03"]) + ["Sonic.Props.C05", "Sonic.Spec.Json"]
-REQUIRED_THEOREMS = []
+LEAN_MODULES = ['Sonic.Props.C03', 'Sonic.Props.C05']
+REQUIRED_THEOREMS = ["Sonic.Props.C03." + n for n in ["C03_value", "C03_value_of_ok", "C03_sax_assemble", "C03_root_finished"]]
 CONFIGS = [("avx2", "prod"), ("sse", "prod"), ("avx2", "san")]
 CONFIGS_THOROUGH = CONFIGS + [("dyn", "prod"), ("sse", "san")]
 RULE = ("valid texts: every combination of value kinds as array element / member value / root, member and element counts 0..40 (crossing the "
@@ -22,8 +22,10 @@ EXPLANATION = ("Oracle: the value computed by Spec.Json.parse (Lean), rendered c
                "C03_value listed in the evidence.")
 ASSUMPTIONS = ["Xmemcpy = copy (exercised for chunk counts 0..40 and both chunk sizes)"]
 TRUSTED = ["Spec.Json.parse as oracle (compiled Lean evaluation)"]
-LEVEL_TEXT = ("Partial proof + spec-oracle correspondence: strings and numbers are proved/validated by C05/C04; tree assembly theorems as listed "
-              "in the evidence; every valid text of the run is compared with the value denoted per the executable spec.")
+LEVEL_TEXT = ("Machine-checked proof (Lean 4): Spec.Json.parse bs = ok v implies the parser model builds exactly v (nesting, order, duplicates, "
+              "decoded strings not clobbered by later in-place decoding, number kinds) - C03_value, C03_sax_assemble - under the per-input "
+              "NumberCorrectOn hypothesis (C04). Level 'other' because of that hypothesis; every valid text of the run is also compared with "
+              "the value denoted per the executable spec.")
 LEVEL_NOTE = "Trusted: Lean kernel; standard axioms; compiled Lean evaluation of the spec; harness accessor walk."
 TECHNIQUE = "Lean 4 executable spec as oracle + component theorems; differential correspondence of trees"
 
